@@ -22,7 +22,7 @@ struct MiniCore
     static constexpr int P = 3;  // gamma, e-, e+
     static constexpr int V = 3;  // volumes (0 = exterior)
     static constexpr int M = 2;  // materials
-    static constexpr int NA = 6;  // action ids in use
+    static constexpr int NA = 11;  // action ids in use (0..4 core scalars, 4..7 physics, 8..9 models, 10 failure)
 
     CoreParamsData<Ownership::const_reference, MemSpace::native> params;
     CoreStateData<Ownership::reference, MemSpace::native> state;
@@ -40,6 +40,9 @@ struct MiniCore
     static inline size_type uidx_surfaces[2]{};
     static inline size_type uidx_volumes[2]{};
     static inline MaterialRecord mat_records[M]{};
+    static inline ProcessGroup proc_groups[P]{};
+    static inline ParticleCutoff cutoffs[P * M]{};
+    static inline size_type cut_index[P]{};
 
     // --- state backing
     // geometry (single level)
@@ -114,6 +117,21 @@ struct MiniCore
         uidx_volumes[1] = V;
         bind(params.geometry.universe_indexer_data.surfaces, (size_type const*)uidx_surfaces, 2);
         bind(params.geometry.universe_indexer_data.volumes, (size_type const*)uidx_volumes, 2);
+        // physics scalars: action ids msc=4 range=5 discrete=6 integral_rejection=7, models 8..9, failure=10
+        params.physics.scalars.max_particle_processes = 1;
+        params.physics.scalars.model_to_action = 8;
+        params.physics.scalars.num_models = 2;
+        params.physics.scalars.lowest_electron_energy = units::MevEnergy{0.001};
+        bind(params.physics.process_groups, (ProcessGroup const*)proc_groups, P);
+        bind(params.cutoffs.cutoffs, (ParticleCutoff const*)cutoffs, P * M);
+        bind(params.cutoffs.id_to_index, (size_type const*)cut_index, P);
+        for (int i = 0; i < P; ++i)
+            cut_index[i] = i;
+        params.cutoffs.num_particles = P;
+        params.cutoffs.num_materials = M;
+        params.cutoffs.ids.gamma = ParticleId{0};
+        params.cutoffs.ids.electron = ParticleId{1};
+        params.cutoffs.ids.positron = ParticleId{2};
         params.init.capacity = K;
         params.init.max_events = E;
         params.init.track_order = TrackOrder::none;
